@@ -26,6 +26,7 @@ type vfHTTPSrv struct {
 	byPath  func(method, path string) string // behaviour for a request
 	reqs    []string
 	stallFor time.Duration
+	objN     int
 }
 
 func vfSelfSigned() tls.Certificate {
@@ -143,6 +144,23 @@ func (s *vfHTTPSrv) serve(raw net.Conn, cfg *tls.Config) {
 		if method == "HEAD" {
 			c.Write([]byte(hdr + "Content-Length: 0\r\n\r\n"))
 			return
+		}
+		// an object is delivered in one of three ways, in turn: in one piece; headers first and the body 30 ms later; with a member
+		// that makes the body far larger than any read buffer (the decoder must still be able to read the body after the headers)
+		if beh == "object" {
+			s.mu.Lock()
+			s.objN++
+			style := s.objN % 3
+			s.mu.Unlock()
+			switch style {
+			case 1:
+				c.Write([]byte(hdr + "Content-Length: " + itoa(len(b)) + "\r\n\r\n"))
+				time.Sleep(30 * time.Millisecond)
+				c.Write([]byte(b))
+				return
+			case 2:
+				b = b[:len(b)-1] + `,"vfpad":"` + strings.Repeat("p", 300000) + `"}`
+			}
 		}
 		c.Write([]byte(hdr + "Content-Length: " + itoa(len(b)) + "\r\n\r\n" + b))
 	}
